@@ -1321,8 +1321,7 @@ Proof.
   split; [rewrite border_join_length; exact Hw|].
   intros x Hx. rewrite border_join_spec, Hw.
   destruct (N.ltb_spec x tot) as [_|Hge]; [|lia].
-  rewrite joined_above_JA, joined_below_JA. f_equal.
-  destruct (existsb _ _); reflexivity.
+  rewrite joined_above_JA, joined_below_JA. reflexivity.
 Qed.
 
 (* a row with a nested table in its second cell: the nested table's bottom border
